@@ -1,7 +1,7 @@
 (* Property C12, parts (c) version/platform tests and (d) constant folding.
    Only theorem statements closed by `exact`, each followed by Print Assumptions. *)
 From Coq Require Import ZArith List String Bool.
-From C12 Require Import PyRules Version Proofs ProofsVersion ProofsGenReach ProofsFloat.
+From C12 Require Import PyRules Version Proofs ProofsVersion ProofsGenReach ProofsFloat Cond ProofsCond Chain ProofsChain.
 From Gen Require Import ConstFold Reach.
 Import ListNotations.
 Open Scope Z_scope.
@@ -175,6 +175,39 @@ Theorem py_pow_int_total : forall l r, 0 <= r -> py_pow_int l r = ROk (l ^ r).
 Proof. exact ProofsFloat.py_pow_int_total. Qed.
 Print Assumptions py_pow_int_total.
 
+(* nested conditions (`not`, `and`, `or` to any depth) over leaves whose inferred value is a correct verdict: the lookup in
+   inverted_truth_mapping never raises KeyError, the result is a truth value, and it is a correct verdict for the boolean
+   the whole condition denotes -- by structural induction, from the regenerated tables *)
+Theorem infer_condition_value_compositional : forall e, leaves_sound e ->
+  exists v, infer_cond e = Some v /\ tv v /\ sem v (eval_cond e).
+Proof. exact ProofsCond.infer_condition_value_compositional. Qed.
+Print Assumptions infer_condition_value_compositional.
+
+(* so a branch taken / skipped on a nested condition is the branch the condition selects *)
+Theorem nested_condition_decided_correctly : forall e v b, leaves_sound e ->
+  infer_cond e = Some v -> static_truth v = Some b -> eval_cond e = b.
+Proof. exact ProofsCond.nested_condition_decided_correctly. Qed.
+Print Assumptions nested_condition_decided_correctly.
+
+(* if / elif / else chains (infer_reachability_of_if_statement): body i is marked unreachable exactly when its condition is
+   always false or an earlier condition is always true; the else body exactly when some condition is always true *)
+Theorem chain_reachability_exact : forall vs,
+  (forall i v, nth_error vs i = Some v ->
+     nth_error (fst (chain_marks vs)) i
+     = Some (is_false_value v || existsb (fun w => negb (is_false_value w) && is_true_value w) (firstn i vs))) /\
+  snd (chain_marks vs) = existsb (fun v => negb (is_false_value v) && is_true_value v) vs.
+Proof. intros vs; split; [exact (chain_body_exact vs) | exact (chain_else_exact vs)]. Qed.
+Print Assumptions chain_reachability_exact.
+
+(* and the body that runs is never marked: with correct verdicts for the conditions, the branch they select is kept *)
+Theorem chain_never_skips_taken_branch : forall vs xs, Forall2 sem vs xs ->
+  match taken xs with
+  | Some i => nth_error (fst (chain_marks vs)) i = Some false
+  | None => snd (chain_marks vs) = false
+  end.
+Proof. exact ProofsChain.chain_never_skips_taken_branch. Qed.
+Print Assumptions chain_never_skips_taken_branch.
+
 (* non-vacuity: hypotheses are met by concrete non-trivial cases *)
 Example fold_example : constant_fold_binary_int_op "//" (-7) 2 = Folded (VInt (-4)).
 Proof. vm_compute. reflexivity. Qed.
@@ -194,3 +227,13 @@ Example fold_float_example :
   constant_fold_binary_float_op fo "/" (NInt 1) (NFloat (FLit 1)) = Folded (VFloat (FBin "/" (FOfInt 1) (FLit 1))) /\
   constant_fold_binary_op_str_int "*" "ab" (-1) = Some EmptyString.
 Proof. repeat split; vm_compute; reflexivity. Qed.
+(* not (TYPE_CHECKING and <unknown>) or <always true> *)
+Example nested_condition_example :
+  let e := COp "or" (CNot (COp "and" (CLeaf MYPY_TRUE true) (CLeaf TRUTH_VALUE_UNKNOWN false))) (CLeaf ALWAYS_TRUE true) in
+  leaves_sound e /\ infer_cond e = Some ALWAYS_TRUE /\ eval_cond e = true.
+Proof. cbv zeta. split; [|split; vm_compute; reflexivity]. simpl. unfold tv, sem. vm_compute. tauto. Qed.
+(* if AF: .. elif <unknown>: .. elif TYPE_CHECKING: .. elif AT: .. else: .. *)
+Example chain_example :
+  chain_marks [ALWAYS_FALSE; TRUTH_VALUE_UNKNOWN; MYPY_TRUE; ALWAYS_TRUE] = ([true; false; false; true], true) /\
+  Forall2 sem [ALWAYS_FALSE; TRUTH_VALUE_UNKNOWN; MYPY_TRUE] [false; false; true] /\ taken [false; false; true] = Some 2%nat.
+Proof. split; [vm_compute; reflexivity|]. split; [|reflexivity]. repeat constructor; vm_compute; auto. Qed.
